@@ -948,47 +948,75 @@ def shards_delta(shards, other_shards):
     other_shards_iter = iter(other_shards)
     other_num_rows = other_cviews = None
     done = other_done = 0
+    # the unfinished cviews of earlier shards: they take up columns between the cviews a shard lists
+    shard_tail = []
+    other_tail = []
     for num_rows, cviews in shards:
         if other_num_rows is None:
             other_num_rows, other_cviews = next(other_shards_iter, (None, None))
         while other_num_rows is not None and other_done < done:
             other_done += other_num_rows
+            other_tail = shard_body_tail(other_num_rows, shard_body(other_cviews, other_tail, False))
             other_num_rows, other_cviews = next(other_shards_iter, (None, None))
         if other_num_rows is None or other_done > done:
             # no shard of the other canvas starts on this row
             yield (num_rows, cviews)
-            done += num_rows
-            continue
-        # top-aligned shards, compare each cview
-        yield (num_rows, shard_cviews_delta(cviews, other_cviews))
-        other_done += other_num_rows
-        other_num_rows = None
+        else:
+            # top-aligned shards, compare each cview
+            yield (
+                num_rows,
+                shard_cviews_delta(
+                    cviews,
+                    other_cviews,
+                    shard_cview_columns(cviews, shard_tail),
+                    shard_cview_columns(other_cviews, other_tail),
+                ),
+            )
+            other_done += other_num_rows
+            other_tail = shard_body_tail(other_num_rows, shard_body(other_cviews, other_tail, False))
+            other_num_rows = None
+        shard_tail = shard_body_tail(num_rows, shard_body(cviews, shard_tail, False))
         done += num_rows
 
 
-def shard_cviews_delta(cviews, other_cviews):
-    other_cviews_iter = iter(other_cviews)
-    other_cv = None
-    cols = other_cols = 0
-    for cv in cviews:
-        if other_cv is None:
-            other_cv = next(other_cviews_iter, None)
-        while other_cv is not None and other_cols < cols:
-            other_cols += other_cv[2]
-            other_cv = next(other_cviews_iter, None)
-        if other_cv is None or other_cols > cols:
-            # no cview of the other shard starts in this column
-            yield cv
-            cols += cv[2]
-            continue
-        # top-left-aligned cviews, compare them
-        if cv[5] is other_cv[5] and cv[:5] == other_cv[:5]:
+def shard_cview_columns(cviews, shard_tail) -> list[int]:
+    """
+    Return the screen column each cview listed in a shard starts in, given the shard tail above it.
+    """
+    columns = []
+    col = 0
+    cviews_iter = iter(cviews)
+    for col_gap, _done_rows, _content_iter, tail_cview in shard_tail:
+        while col_gap > 0:
+            cview = next(cviews_iter, None)
+            if cview is None:
+                break
+            columns.append(col)
+            col += cview[2]
+            col_gap -= cview[2]  # noqa: PLW2901
+        col += tail_cview[2]
+    for cview in cviews_iter:
+        columns.append(col)
+        col += cview[2]
+    return columns
+
+
+def shard_cviews_delta(cviews, other_cviews, columns=None, other_columns=None):
+    """
+    Yield cviews with the ones that are the same view of the same canvas in the same screen column
+    of other_cviews having canv = None.
+    """
+    if columns is None:
+        columns = shard_cview_columns(cviews, [])
+    if other_columns is None:
+        other_columns = shard_cview_columns(other_cviews, [])
+    other_at = dict(zip(other_columns, other_cviews))
+    for col, cv in zip(columns, cviews):
+        other_cv = other_at.get(col)
+        if other_cv is not None and cv[5] is other_cv[5] and cv[:5] == other_cv[:5]:
             yield cv[:5] + (None,) + cv[6:]
         else:
             yield cv
-        other_cols += other_cv[2]
-        other_cv = None
-        cols += cv[2]
 
 
 def shard_body(cviews, shard_tail, create_iter: bool = True, iter_default=None):
